@@ -21,6 +21,8 @@ def check(prog, rep, tier):
                       'only after version, AS and hold-time checks')
     rep.rule('R01.e', 'environment facts the extractor relies on (single FSM per peering, '
                       'DelayOpen off, no state writer outside the event handlers)')
+    rep.rule('R01.f', 'the timer primitives the table is built on (BGPTimer.reset / cancel / active) have the modelled '
+                      'semantics; active() reports the reactor\'s view of the pending call')
     rep.assumptions += [
         'Twisted calls connectionMade/connectionLost/dataReceived/clientConnectionFailed/buildProtocol as documented',
         'BGPTimer.reset/cancel behave as R03.g establishes; reactor.callFromThread(f, x) runs f(x)',
@@ -188,6 +190,11 @@ def check(prog, rep, tier):
 
 
 # ---------------------------------------------------------------------- helpers
+
+    # ---------------------------------------------------------------- R01.f
+    from .c03 import timer_shape
+    timer_shape(prog, rep, rule='R01.f')
+
 def _first_fsm_event(r):
     for e in r.events:
         if e[0] == 'fsm' and e[1] in ('header_error', 'open_message_error', 'open_received',
